@@ -19,6 +19,7 @@ func KeyToSlot(key string) uint16 {
 					break
 				}
 			}
+			break // only the first '{' counts (Redis Cluster HASH_SLOT)
 		}
 	}
 	if len(hashtag) > 0 {
